@@ -4384,6 +4384,9 @@ def bundle_retention(P, R, L):
     R.once(pair15_charge_same_version, P, R, L)
     R.once(pair12_file_level_pairs, P, R, L)
     R.once(grd30_base_level_cursor, P, R, L)
+    from . import blind
+    R.clause("SNAP-1", "every snapshot owns a list node of its own and its release removes that node unconditionally (the oldest live snapshot bounds what a compaction may drop)")
+    R.once(blind.snap1_one_node_per_snapshot, P, R, L)
 
 
 def bundle_liveness(P, R, L):
@@ -4434,6 +4437,14 @@ def bundle_readpath(P, R, L):
     R.once(blind.mrg1_merge_selection, P, R, L)
     R.clause("ENUM-1", "the hand-written tag decoders (Operation, BlockType, compression type, manifest field tags) invert the enums' discriminants")
     R.once(blind.enum1_tag_decoders, P, R, L)
+    R.clause("PAIR-8 (turn-around)", "when the merge turns round a child is stepped back behind is_valid() and put on its last entry behind !is_valid() (current() of a caching child is stale once it ran off its end)")
+    R.once(blind.pair8c_turnaround_decided_by_is_valid, P, R, L)
+    R.clause("OWN-15", "KeyNotFound (`go on to the next older source`) is built only where a source was searched: Table::get, the memtable's get, DB::get")
+    R.once(blind.own15_who_may_say_not_found, P, R, L)
+    R.clause("BLKW-1", "the entry header lengths of a block reach the buffer only as varint-encoder output (no hand-written bytes)")
+    R.once(blind.blkw1_entry_header_through_the_codec, P, R, L)
+    R.clause("ITR-3", "the collapse loops of the client iterator move the inner iterator one record at a time (no re-seek shortcut)")
+    R.once(blind.itr3_collapse_loops_only_step, P, R, L)
 
 
 def bundle_recovery(P, R, L):
@@ -4479,6 +4490,8 @@ def bundle_recovery(P, R, L):
     R.once(blind.fs3_memory_rename_and_remove, P, R, L)
     R.clause("ENUM-1", "the hand-written tag decoders (Operation, BlockType, compression type, manifest field tags) invert the enums' discriminants")
     R.once(blind.enum1_tag_decoders, P, R, L)
+    R.clause("ERR-5", "every From<io::Error> files the error under the IO variant, whatever its kind (the WAL reader skips what is classified as damage)")
+    R.once(blind.err5_io_errors_keep_their_class, P, R, L)
 
 
 def bundle_filter(P, R, L):
@@ -4491,6 +4504,8 @@ def bundle_filter(P, R, L):
     R.once(c14.grd8, P, R, L)
     R.once(c14.grd15, P, R, L)
     R.once(grd7, P, R, L)
+    from . import blind
+    R.once(blind.agr5_filter_index_from_the_plain_offset, P, R, L)
 
 
 def bundle_no_assertion_trips(P, R, L):
@@ -4513,6 +4528,8 @@ def bundle_no_assertion_trips(P, R, L):
     R.once(grd25_finish_only_with_builder, P, R, L)
     R.once(ord20_empty_block_tested_before_finalize, P, R, L)
     R.once(grd32_flush_time_is_a_sub_interval, P, R, L)
+    from . import blind
+    R.once(blind.ts3_no_abandon_after_finalize, P, R, L)
 
 
 # ------------------------------------------------------------------------------------------- GRD-20 a database is created only when none exists
